@@ -28,7 +28,7 @@ CLAIMED = {
         note=TRUST + 'Round trips through different pools are price arbitrage and are not asserted.'),
     'C04': dict(
         text='The public Swap message executed through the chain model from an arbitrary constant-product pool state: reserve deltas, receiver / fee '
-             'collector / burn amounts equal floor shares of the gross output, nobody else\'s balance changes, only bank messages; receiver variants '
+             'collector / burn amounts equal floor shares of the gross output, nobody else\'s balance changes, only transfers and burns; receiver variants '
              '(none, valid, invalid address). Routed swaps (4 route shapes incl. routes that return to the offer denom; pricing kernel abstracted): each hop '
              'offers exactly the previous hop output, only the final output reaches the receiver, per-denom protocol / burn fees and reserve backing are exact. '
              'Counterexamples are replayed natively (predicted balances and reserves; routes: the route against its hops sent one by one).',
@@ -58,7 +58,7 @@ CLAIMED = {
     'C08': dict(
         text='Step obligations on the public ManagePosition messages (create / expand / close full and partial / withdraw) from a symbolic farm-manager state: '
              'sender role (owner, stranger, pool manager), open/closed state, amounts, times and expiry are symbolic or case-split; authorisation, the exact '
-             'unlock boundary, full payment, LP conservation on partial closes, id prefixes / counter and non-interference with other positions are decided per path. '
+             'unlock boundary, full payment, LP conservation on partial closes, id prefixes and non-interference with other positions are decided per path. '
              'Locked deposits: ProvideLiquidity with an unlocking duration executed across BOTH contracts (pool manager execute / reply -> farm manager execute, '
              'Positions query back) for 4 lock targets x 2 receivers, one and two assets: only the sender own positions grow, by exactly the minted shares.',
         ref='DESIGN.md §6 C08',
